@@ -33,6 +33,7 @@ TTYPE = "state * list (tqry * tans)"
 
 def gen_trav_case(rng, search=False):
     case = _gen_trav_case(rng, search)
+    case["caching"] = rng.random() < 0.5          # the answers must not depend on the neighbour memo being in use
     if rng.random() < 0.5:
         case["ops2"] = gen_phase2(rng, case, case.pop("_uid"), case.pop("_vids"), case.pop("_lids"))
     else:
@@ -79,6 +80,8 @@ def observe_trav(case):
     """one or two phases: build, snapshot, run every query (then mutate the same live graph and ask again)"""
     w = H.World()
     try:
+        from edgegraph.structure import Vertex as _V
+        _V.NEIGHBOR_CACHING = bool(case.get("caching"))
         first = _observe_phase(w, case, case["ops"])
         if first is None:
             return None
